@@ -3,12 +3,16 @@ pub mod vm_layout;
 
 mod mmapper;
 pub use self::mmapper::Mmapper;
+#[cfg(mmtk_verif)]
+pub use self::mmapper::csm::verif_hooks as verif_mmapper;
 
 mod map;
 pub(crate) use self::map::CreateFreeListResult;
 pub use self::map::VMMap;
 use self::vm_layout::vm_layout;
 mod map32;
+#[cfg(mmtk_verif)]
+pub use self::map32::verif_hooks as verif_map32;
 #[cfg(target_pointer_width = "64")]
 mod map64;
 
